@@ -609,6 +609,11 @@ func c05(r *h.Result, rng *h.Rng, tier string, replay string) error {
 		return err
 	}
 
+	// ---- declared-size probes (c05_probe.go)
+	if err := c.probeStream(batchSize); err != nil {
+		return err
+	}
+
 	// ---- raw stream (fuzzing)
 	r.Stream("raw (FUZZING, liveness only): byte mutations per content type and encoding — gzip, snappy block and framing, multipart, ndjson, query parameters; decompression bombs at the limits in the thorough tier")
 	rrng := rng.Fork()
